@@ -19,6 +19,7 @@ LEVEL = "other"
 def run(chk):
     cfgs = ["base", "port", "hi"] if chk.tier == "quick" else ["base", "port", "z", "hi", "port+z"]
     chk.configs = cfgs
+    chk.rule("FLOAT.double-only", "no float-typed expression and no single-precision math function in any library function")
     chk.rule("WRAP.container-end", "PointInPolygon: every wrap-around predecessor `prev = E - 1` takes E from polygon.cend() on all reaching definitions "
              "(the local end marker is moved during the cyclic walk)")
     chk.rule("AXIS.mirror", "twin locals for the two axes (bb0minx / bb0miny, originx / originy, ...) read mirrored coordinates; includes the "
@@ -34,6 +35,7 @@ def run(chk):
         e3.multiply_no_wrap(db, chk, cfg)
         e9.rule_int64_product(db, chk, cfg)
         e3.pip_wrap_rule(db, chk, cfg)
+        e3.no_single_precision(db, chk, cfg)
         nax = e3.axis_mirror_rule(db, chk, cfg)
         if nax < (10 if "hi" in cfg.split("+") else 4):
             from ..extract import AnalysisBroken
